@@ -85,6 +85,8 @@ func (t *tree) goOrdered(rng *rand.Rand) interface{} {
 	switch t.K {
 	case "nil":
 		return nil
+	case "alias":
+		return "${" + t.To + "}"
 	case "p":
 		return t.prim()
 	}
@@ -180,8 +182,9 @@ func observeTop(c *ucfg.Config, opts ...ucfg.Option) (m, l interface{}, err erro
 }
 
 type topObs struct {
-	M *obs `json:"m"`
-	L *obs `json:"l"`
+	Nils [][]string `json:"nils"`
+	M    *obs       `json:"m"`
+	L    *obs       `json:"l"`
 }
 
 type mergeCase struct {
@@ -196,9 +199,37 @@ type mergeCase struct {
 }
 
 type mergeOutcome struct {
-	Err string      `json:"err,omitempty"`
-	M   interface{} `json:"m"`
-	L   interface{} `json:"l"`
+	Err  string      `json:"err,omitempty"`
+	M    interface{} `json:"m"`
+	L    interface{} `json:"l"`
+	Nils []string    `json:"nils"` // positions that hold an explicit nil (joined with \x00), sorted
+}
+
+// nilPaths lists the positions of c that hold an explicit nil (as opposed to an empty object): a typed
+// read of a nil says so (kind 'any'), of an object "can not convert 'object'"
+func nilPaths(c *ucfg.Config, path []string, depth int, out *[]string) {
+	if depth == 0 {
+		return
+	}
+	visit := func(name string, idx int, seg string) {
+		p := append(append([]string{}, path...), seg)
+		// (the getters name the kind of the setting they refuse: 'any' is the explicit nil)
+		if _, err := c.Bool(name, idx); err != nil && strings.Contains(err.Error(), "can not convert 'any'") {
+			*out = append(*out, strings.Join(p, "\x00"))
+			return
+		}
+		if sub, err := c.Child(name, idx); err == nil && sub != nil {
+			nilPaths(sub, p, depth-1, out)
+		}
+	}
+	for _, k := range c.GetFields() {
+		visit(k, -1, k)
+	}
+	if n, err := c.CountField(""); err == nil && c.IsArray() {
+		for i := 0; i < n; i++ {
+			visit("", i, strconv.Itoa(i))
+		}
+	}
 }
 
 func errClass(err error) string {
@@ -215,6 +246,14 @@ func errClass(err error) string {
 func runMerge(a, b *tree, pol string, fos []fieldOpt, repr string, rng *rand.Rand, checkSource bool) (out mergeOutcome, skipped bool, srcChanged string) {
 	opts := mergeOptions(pol, fos)
 	sep := ucfg.PathSep(".")
+	obsOpts := []ucfg.Option{sep}
+	srcOpts := []ucfg.Option{sep}
+	if hasAlias(b) {
+		// the source holds ${references}: variable expansion on for the source, the merge and the reads
+		opts = append(opts, ucfg.VarExp)
+		obsOpts = append(obsOpts, ucfg.VarExp)
+		srcOpts = append(srcOpts, ucfg.VarExp)
+	}
 	panicked, msg := guard(func() {
 		dst, err := ucfg.NewFrom(a.goOrdered(rng), sep)
 		if err != nil {
@@ -234,7 +273,7 @@ func runMerge(a, b *tree, pol string, fos []fieldOpt, repr string, rng *rand.Ran
 			}
 			src = s
 		case "cfg":
-			srcCfg, err = ucfg.NewFrom(b.goOrdered(rng), sep)
+			srcCfg, err = ucfg.NewFrom(b.goOrdered(rng), srcOpts...)
 			if err != nil {
 				out.Err = "src " + errClass(err)
 				return
@@ -254,12 +293,15 @@ func runMerge(a, b *tree, pol string, fos []fieldOpt, repr string, rng *rand.Ran
 			out.Err = errClass(err)
 			return
 		}
-		m, l, err := observeTop(dst, sep)
+		m, l, err := observeTop(dst, obsOpts...)
 		if err != nil {
 			out.Err = "unpack " + errClass(err)
 			return
 		}
 		out.M, out.L = m, l
+		out.Nils = []string{}
+		nilPaths(dst, nil, 8, &out.Nils)
+		sort.Strings(out.Nils)
 		if checkSource && srcCfg != nil {
 			m, l, _ := observeTop(srcCfg, sep)
 			after := jsonOf([]interface{}{m, l, srcCfg.Path("."), srcCfg.Parent() == nil})
@@ -274,6 +316,26 @@ func runMerge(a, b *tree, pol string, fos []fieldOpt, repr string, rng *rand.Ran
 	return
 }
 
+func hasAlias(t *tree) bool {
+	if t == nil {
+		return false
+	}
+	if t.K == "alias" {
+		return true
+	}
+	for _, e := range t.D {
+		if hasAlias(e) {
+			return true
+		}
+	}
+	for _, e := range t.A {
+		if hasAlias(e) {
+			return true
+		}
+	}
+	return false
+}
+
 func eqTop(out mergeOutcome) func(exp json.RawMessage) bool {
 	return func(exp json.RawMessage) bool {
 		if out.Err != "" {
@@ -282,6 +344,16 @@ func eqTop(out mergeOutcome) func(exp json.RawMessage) bool {
 		var e topObs
 		if err := json.Unmarshal(exp, &e); err != nil {
 			return false
+		}
+		if e.Nils != nil {
+			want := []string{}
+			for _, p := range e.Nils {
+				want = append(want, strings.Join(p, "\x00"))
+			}
+			sort.Strings(want)
+			if !reflect.DeepEqual(want, out.Nils) {
+				return false
+			}
 		}
 		return reflect.DeepEqual(out.M, e.M.canon()) && reflect.DeepEqual(out.L, e.L.canon())
 	}
